@@ -76,6 +76,8 @@ def ev_lib(be, node):
     if t == 'reduce':
         a = ev_lib(be, node['a'])
         return a.reduce() if type(a).__name__ == 'PauliPolynomial' else a
+    if t == 'inv':          # PauliMonomial.inverse(): the operator inverse of c i^p P
+        return ev_lib(be, node['a']).inverse()
     if t == 'addnum':
         return ev_lib(be, node['a']) + gen.cplx(node['c'])
     if t == 'raddnum':
@@ -104,6 +106,8 @@ def ev_dense(node, N):
         return -ev_dense(node['a'], N)
     if t == 'reduce':
         return ev_dense(node['a'], N)
+    if t == 'inv':
+        return np.linalg.inv(ev_dense(node['a'], N))
     if t in ('addnum', 'raddnum'):
         return ev_dense(node['a'], N) + gen.cplx(node['c']) * I
     if t == 'subnum':
@@ -177,6 +181,7 @@ def st_tree(be, N, depth):
     if be == 'np':
         leafs.append(st.fixed_dictionaries({'t': st.just('M'), 'p': gen.st_pauli(N), 'c': gen.st_coef()}))
         leafs.append(st.fixed_dictionaries({'t': st.just('L'), 'ops': gen.st_pauli_list(N, 1, 4)}))
+        leafs.append(st.fixed_dictionaries({'t': st.just('inv'), 'a': st.fixed_dictionaries({'t': st.just('M'), 'p': gen.st_pauli(N), 'c': gen.st_coef(nonzero=True)})}))
     leaf = st.one_of(*leafs)
 
     def ext(ch):
